@@ -77,6 +77,7 @@ structure J (d : Details) (pl : List DName) (cl : Bool) (T : List Exc) (A : List
   reason    : ∀ x ∈ d, x.1 = nmReason → ∃ r, x.2 = .reason r
   plainNe   : nmReason ∉ pl
   addsPlain : ∀ x ∈ A, x.1 ∈ pl
+  plainSub  : ∀ n ∈ pl, n ∈ A.map (·.1)
   ud        : ∀ n c, lastAdd A n = some c → d.find? (·.1 == n) = some (n, .user c)
   tbs       : cl = false → tbsIn d = T
   uqs       : cl = false → Match2 U (uqEntries d pl)
@@ -90,7 +91,7 @@ theorem J.plain {d : Details} {pl : List DName} {cl : Bool} {T : List Exc} {A : 
     {U : List (DName × Content)} (h : J d pl cl T A U) (n : DName) (c : UC) (hn : n ≠ nmReason) :
     J (dset d n (.user c)) (n :: pl) (cl || (dmem d n && !pl.contains n)) T (A ++ [(n, c)]) U := by
   have hmem := mem_dset d n (.user c) h.nodup
-  refine ⟨nodup_dset d n _ h.nodup, ?_, ?_, ?_, ?_, ?_, ?_, ?_, ?_⟩
+  refine ⟨nodup_dset d n _ h.nodup, ?_, ?_, ?_, ?_, ?_, ?_, ?_, ?_, ?_⟩
   · intro m hm
     rw [mem_dnames_dset]
     simp only [List.mem_cons] at hm
@@ -115,6 +116,12 @@ theorem J.plain {d : Details} {pl : List DName} {cl : Bool} {T : List Exc} {A : 
     rcases hx with hx | rfl
     · exact List.mem_cons_of_mem _ (h.addsPlain x hx)
     · exact List.mem_cons_self
+  · intro m hm
+    simp only [List.mem_cons] at hm
+    simp only [List.map_append, List.map_cons, List.map_nil, List.mem_append, List.mem_singleton]
+    rcases hm with hm | hm
+    · exact Or.inr hm
+    · exact Or.inl (h.plainSub m hm)
   · intro m c' hl
     rw [lastAdd_append] at hl
     by_cases hm : n = m
@@ -171,7 +178,7 @@ theorem J.append {d : Details} {pl : List DName} {cl : Bool} {T : List Exc} {A :
     J (dset d m c) pl cl (T ++ (tbOf (m, c)).toList) A (U ++ (if isUq c then [(orig, c)] else [])) := by
   have hmp : m ∉ pl := fun hp => hm (h.plainIn m hp)
   rw [dset_of_not_mem d m c hm]
-  refine ⟨?_, ?_, ?_, ?_, h.plainNe, h.addsPlain, ?_, ?_, ?_⟩
+  refine ⟨?_, ?_, ?_, ?_, h.plainNe, h.addsPlain, h.plainSub, ?_, ?_, ?_⟩
   · have := nodup_dset d m c h.nodup
     rwa [dset_of_not_mem d m c hm] at this
   · intro n hn
@@ -229,7 +236,7 @@ theorem J.reasonSet {d : Details} {pl : List DName} {cl : Bool} {T : List Exc} {
     obtain ⟨r', hr'⟩ := h.reason x hx hxr
     obtain ⟨m, y⟩ := x
     simp only at hxr hr'; subst hxr; subst hr'; exact ⟨r', rfl⟩
-  refine ⟨nodup_dset d _ _ h.nodup, ?_, ?_, ?_, h.plainNe, h.addsPlain, ?_, ?_, ?_⟩
+  refine ⟨nodup_dset d _ _ h.nodup, ?_, ?_, ?_, h.plainNe, h.addsPlain, h.plainSub, ?_, ?_, ?_⟩
   · intro n hn
     rw [mem_dnames_dset]; exact Or.inr (h.plainIn n hn)
   · intro x hx hxp
